@@ -423,6 +423,53 @@ def _norm_digest(d):
             "actions": d["actions"], "queue": d["queue"], "gctx": d["gctx"]}
 
 
+def _norm_op(op, table):
+    """(kind, canonical uids…, position/status, name) of a recorded or model operation; None for a no-op setter call"""
+    k = op[0]
+    if k in ("setPos", "setStatus") and len(op) > 5 and op[5] is False:
+        return None
+
+    def c(u):
+        if u not in table:
+            table.append(u)
+        return table.index(u)
+
+    if k == "addInst":
+        return [k, c(op[1]), c(op[2]), op[3]]
+    if k == "setPos" or k == "setStatus":
+        return [k, c(op[1]), c(op[2]), op[3], op[4]]
+    if k == "fork":
+        return [k, c(op[1]), c(op[2]), op[4], op[5]]
+    if k in ("delHead", "rmHead"):
+        return [k, c(op[1]), c(op[2])]
+    if k == "mainRestart":
+        return [k, c(op[1]), c(op[2]), op[3]]
+    if k == "setFlowStatus":
+        return [k, c(op[1]), op[2]]
+    return [k, c(op[1])]
+
+
+def _compare_op_streams(real_ops, model_ops, table_r, table_m):
+    r = [x for x in (_norm_op(o, table_r) for o in real_ops) if x is not None]
+    m = [x for x in (_norm_op(o, table_m) for o in model_ops) if x is not None]
+    for i in range(max(len(r), len(m))):
+        a = r[i] if i < len(r) else None
+        b = m[i] if i < len(m) else None
+        if a is None or b is None:
+            return f"operation #{i}: real {a} model {b} (lengths {len(r)} / {len(m)})"
+        # the event name is evaluated lazily by the model (only when the head is going to be registered)
+        if a[0] != b[0]:
+            return f"operation #{i}: real {a} model {b}"
+        if a[0] in ("addInst", "setPos", "setStatus", "fork", "mainRestart"):
+            if a[:-1] != b[:-1]:
+                return f"operation #{i}: real {a} model {b}"
+            if b[-1] is not None and a[-1] != b[-1]:
+                return f"operation #{i}: event name differs: real {a} model {b}"
+        elif a != b:
+            return f"operation #{i}: real {a} model {b}"
+    return None
+
+
 def _canon_digests(ds):
     table = []
     out = []
@@ -441,12 +488,16 @@ def compare_vm(case, obs, res):
         return f"CoreVM driver failed: {res}"
     steps = [st for st in obs["steps"] if "vm" in st and "event" in st]
     real, model = [], []
+    optable_r, optable_m = [], []
     for n, st in enumerate(steps):
         if n >= len(res):
             return f"CoreVM returned {len(res)} digests for {len(steps)} events"
         m = res[n]
         if m["res"] == "unsupported":
             info["stop"] = "unsupported:" + m["why"]
+            if "tie-break" in m["why"]:
+                # the model asked for a different number of random.choice outcomes than the interpreter used: a divergence
+                return f"event {n} {st['item']}: {m['why']}"
             break
         if m["res"] == "fuel":
             info["stop"] = "fuel"
@@ -467,6 +518,11 @@ def compare_vm(case, obs, res):
             diffs = [k for k in rc[-1] if rc[-1][k] != mc[-1][k]]
             k = diffs[0]
             return f"event {n} {st['item']}: CoreVM and the interpreter differ on {diffs}: {k}: model {json.dumps(mc[-1][k])[:600]} real {json.dumps(rc[-1][k])[:600]}"
+        # the index operations CoreVM performed during this event are the ones the real interpreter performed (same order)
+        d = _compare_op_streams(st.get("ops", []), m.get("ops", []), optable_r, optable_m)
+        if d:
+            return f"event {n} {st['item']}: CoreVM and the interpreter wrote the index-relevant state differently: {d}"
+        info["ops_agreed"] = info.get("ops_agreed", 0) + len(m.get("ops", []))
         mch = [list(c) for c in m.get("choices", [])]
         rch = [list(c) for c in st.get("choices", [])]
         if mch != rch:
@@ -665,6 +721,7 @@ def tags(case, obs):
     if vm is not None:
         t.append("vm:events-agreed:" + str(min(40, vm["compared"] // 2 * 2)))
         t.append("vm:" + (vm["stop"] or "complete")[:70])
+        t.append("vm:index-ops-agreed:" + str(min(2000, vm.get("ops_agreed", 0) // 50 * 50)))
     opk = set()
     nops = 0
     for st in obs["steps"]:
